@@ -157,6 +157,7 @@ class Inliner:
         self.mod = mod
         self.protected = set(protected)
         self.inlined_calls = 0
+        self.folded: set[str] = set()
 
     # ------------------------------------------------------------------ which helpers
     def helper_for(self, call: ast.Call, cls: ast.ClassDef | None) -> tuple[ast.AST, bool] | None:
@@ -236,6 +237,7 @@ class Inliner:
         for s in body:
             ast.fix_missing_locations(s)
         self.inlined_calls += 1
+        self.folded.add(h.name)
         return pre + body, ast.Name(id=retvar, ctx=ast.Load())
 
     # ------------------------------------------------------------------ expression helpers (single `return <expr>`)
@@ -300,6 +302,7 @@ class Inliner:
                             return c
                         bind[p_] = defaults[p_]
                 outer.inlined_calls += 1
+                outer.folded.add(h.name)
                 new = _Subst({k: v for k, v in bind.items()}, {}).visit(clone(ret))
                 new = ast.copy_location(new, c)
                 ast.fix_missing_locations(new)
@@ -405,10 +408,31 @@ class Inliner:
             if isinstance(node, FuncNode):
                 cls = parent(node) if isinstance(parent(node), ast.ClassDef) else None
                 node.body = self.inline_block(node.body, node, cls, depth)
+        self._drop_folded_helpers(tree)
         ast.fix_missing_locations(tree)
         _set_parents(tree)
         m = Module(self.mod.name, self.mod.path, self.mod.rel, self.mod.src, tree)
         return m
+
+    def _drop_folded_helpers(self, tree: ast.Module) -> None:
+        """A helper whose every use was folded into its callers has no life of its own any more: remove its definition from
+        the view, so that rules which scan all functions of a module do not meet the same statements twice."""
+        used: set[str] = set()
+        for n in ast.walk(tree):
+            if isinstance(n, ast.Name) and isinstance(n.ctx, ast.Load):
+                used.add(n.id)
+            elif isinstance(n, ast.Attribute):
+                used.add(n.attr)
+            elif isinstance(n, ast.Constant) and isinstance(n.value, str) and n.value.isidentifier():
+                used.add(n.value)
+        for owner in [tree] + [c for c in ast.walk(tree) if isinstance(c, ast.ClassDef)]:
+            keep = []
+            for st in owner.body:
+                if isinstance(st, FuncNode) and st.name in self.folded and st.name not in used and st.name not in self.protected:
+                    continue
+                keep.append(st)
+            if keep:
+                owner.body = keep
 
 
 def _inside_scope(root: ast.AST, node: ast.AST) -> bool:
